@@ -130,7 +130,7 @@ def _pick(ctx, rep):
     picks = []
     saved_default = [o for o in opts._options if o.name == 'policy_file'][0].default
     try:
-        for how, exist_bits, fallback, ctor in itertools.product(hows, range(8), (True, False), (None, 'ctor.yaml', 'policy.yaml', 'policy.json', 'other.yaml')):
+        for how, exist_bits, fallback_arg, ctor in itertools.product(hows, range(8), (True, False, None), (None, 'ctor.yaml', 'policy.yaml', 'policy.json', 'other.yaml')):
             tmp = fsharness.scratch('opverif-pick-')
             try:
                 exists = {'policy.yaml': bool(exist_bits & 1), 'policy.json': bool(exist_bits & 2), 'other.yaml': bool(exist_bits & 4)}
@@ -152,7 +152,9 @@ def _pick(ctx, rep):
                     opts._register(conf)
                 if how.startswith('override'):
                     conf.set_override('policy_file', value, group='oslo_policy')
-                kw = {'fallback_to_json_file': fallback}
+                # None: the argument is left out (a service that just writes Enforcer(conf)); the fallback is on by default
+                fallback = True if fallback_arg is None else fallback_arg
+                kw = {} if fallback_arg is None else {'fallback_to_json_file': fallback}
                 if ctor:
                     kw['policy_file'] = ctor
                 e = policy.Enforcer(conf, **kw)
@@ -165,11 +167,11 @@ def _pick(ctx, rep):
                     want = 'policy.json'
                 else:
                     want = value
-                key = 'c09pick:%s|%d|%s|%s' % (how, exist_bits, fallback, ctor)
+                key = 'c09pick:%s|%d|%s|%s' % (how, exist_bits, fallback_arg, ctor)
                 if got != want:
                     rep.fail(key, 'policy file chosen: %r, expected %r (option set via %s to %r, existing files %r, fallback=%s, '
                              'constructor argument %r)' % (got, want, how, value, [k for k, v in exists.items() if v], fallback, ctor),
-                             {'how': how, 'exists': exists, 'fallback': fallback, 'ctor': ctor})
+                             {'how': how, 'exists': exists, 'fallback': fallback_arg, 'ctor': ctor})
                 picks.append(({'op': 'pick_file', 'value': value, 'never_configured': never_configured,
                                'yaml_exists': exists['policy.yaml'], 'json_exists': exists['policy.json'],
                                'fallback': fallback, 'ctor': ctor},
